@@ -1,0 +1,44 @@
+//go:build verif
+
+package util
+
+// Contracts for package util, checked by /verif (govc). Comment-only file: it adds no declarations.
+
+// ---- Container: abstract view cval(c, tag) = concatenation of the values of all items with that tag.
+
+//@ ghost cval(ref, int) seq
+
+//@ invoke "github.com/brutella/hc/util.Container.GetBytes"(c, tag) (b)
+//@   fresh b
+//@   ensures seq(b) == cval(c, tag) && len(b) == len(cval(c, tag))
+//@ invoke "github.com/brutella/hc/util.Container.GetByte"(c, tag) (b)
+//@   pure
+//@   ensures b == ite(len(cval(c, tag)) > 0, seqat(cval(c, tag), 0), 0)
+//@ invoke "github.com/brutella/hc/util.Container.GetString"(c, tag) (s)
+//@   pure
+//@   ensures s == tostr(cval(c, tag))
+//@ invoke "github.com/brutella/hc/util.Container.SetBytes"(c, tag, value)
+//@   modifies cval(c, tag)
+//@   ensures cval(c, tag) == cat(old(cval(c, tag)), seq(value))
+//@ invoke "github.com/brutella/hc/util.Container.SetByte"(c, tag, value)
+//@   modifies cval(c, tag)
+//@   ensures cval(c, tag) == cat(old(cval(c, tag)), unit(value))
+//@ invoke "github.com/brutella/hc/util.Container.SetString"(c, tag, value)
+//@   modifies cval(c, tag)
+//@   ensures cval(c, tag) == cat(old(cval(c, tag)), seq(value))
+//@ invoke "github.com/brutella/hc/util.Container.BytesBuffer"(c) (b)
+//@   fresh b
+//@   pure
+//@   ensures b != nil
+
+//@ func NewTLV8Container() (c)
+//@   fresh c
+//@   pure
+//@   ensures c != nil && ref(c) > 0
+//@   ensures forall(t, 0, 256, cval(c, t) == empty())
+
+//@ func NewTLV8ContainerFromReader(r) (c, err)
+//@   fresh c
+//@   modifies stream(r)
+//@   ensures err == nil ==> c != nil && ref(c) > 0 && forall(t, 0, 256, cval(c, t) == tlvget(old(stream(r)), t))
+//@   ensures err != nil ==> c == nil
